@@ -96,16 +96,57 @@ def rdfs_search(sp, n, maxdeg, maxfin, first):
 
 
 def _sentinel_jobs(tier, seed):
-    return [dict(shape="chain", size=5000), dict(shape="star", size=2000), dict(shape="tall_board", size=400),
+    jobs = [dict(shape="chain", size=5000), dict(shape="star", size=2000), dict(shape="tall_board", size=400),
             dict(shape="dense_back", size=300)]
+    for k in (3, 5, 6, 8, 12):
+        jobs.append(dict(shape="clique_tail", size=k))          # densely connected cluster + a low-numbered predecessor of the final state
+    for n in (40, 300, 3000):
+        jobs.append(dict(shape="sparse_high", size=n))         # few reaching states, some of them high-numbered
+    for r in range(8 if tier == "quick" else 40):
+        jobs.append(dict(shape="random", size=6 + (r % 9), rseed=seed * 1000 + r))
+    return jobs
 
 
 @harness("rdfs.sentinel", props=["C07"], jobs=_sentinel_jobs, sentinel=True,
-         bounds="concrete executions: 5000-state chain, 2000-leaf star, game C of a 3x400 board, 300-state graph with all back edges",
+         bounds="concrete executions: 5000-state chain, 2000-leaf star, game C of a 3x400 board, 300-state graph with all back edges, "
+                "cliques of 3..12 states with a tail, sparse graphs (40..3000 states) whose few reaching states are high-numbered, "
+                "8 (thorough 40) seeded random graphs of 6..14 states",
          desc="SENTINEL (concrete run, not a solver verdict): large/deep graphs return the right set without RecursionError "
               "under the interpreter's default recursion limit")
-def rdfs_sentinel(sp, shape, size):
+def rdfs_sentinel(sp, shape, size, rseed=0):
     m = repo.std().reverse_dfs
+    if shape == "clique_tail":
+        k = size
+        # states 0: start; 1: direct predecessor of the final state; 2..k+1: a clique that also reaches the final state; last: final
+        n = k + 3
+        fin = n - 1
+        tl = [[("a", 1)], [("a", fin)]]
+        for i in range(2, k + 2):
+            tl.append([("c%d" % j, j) for j in range(2, k + 2) if j != i] + [("f", fin)] + ([("p", 1)] if i == 2 else []))
+        tl.append([(1, fin)])
+        tl[0].append(("b", 2))
+        finals = [fin]
+        return _rdfs_compare(sp, m, n, tl, finals, shape, size)
+    if shape == "sparse_high":
+        n = size
+        reach = sorted({1, n // 5, n - n // 6, n - 7, n - 2})
+        fin = n - 1
+        tl = [[(1, i)] for i in range(n)]                       # everybody loops on itself ...
+        for r in reach:
+            tl[r] = [("go", fin)]                               # ... except a few states that step to the final state
+        tl[fin] = [(1, fin)]
+        return _rdfs_compare(sp, m, n, tl, [fin], shape, size)
+    if shape == "random":
+        import random
+        rnd = random.Random(rseed)
+        n = size
+        dense = rnd.random() < 0.5
+        tl = []
+        for u in range(n):
+            deg = rnd.randint(0, n if dense else 2)
+            tl.append([("a%d" % k, rnd.randrange(n)) for k in range(deg)])
+        finals = [rnd.randrange(n) for _ in range(rnd.randint(1, 3))]
+        return _rdfs_compare(sp, m, n, tl, finals, shape, size)
     if shape == "chain":
         n = size
         tl = [[("a", i + 1)] for i in range(n - 1)] + [[("a", n - 1)]]
@@ -130,6 +171,10 @@ def rdfs_sentinel(sp, shape, size):
         g = eval("{" + buf.getvalue().rstrip().rstrip("}") + "}")["game_c"]
         tl, finals = g["transition_list"], g["final_states"]
         n = len(tl)
+    _rdfs_compare(sp, m, n, tl, finals, shape, size)
+
+
+def _rdfs_compare(sp, m, n, tl, finals, shape, size):
     old = sys.getrecursionlimit()
     sys.setrecursionlimit(1000)
     t0 = time.time()
@@ -137,5 +182,14 @@ def rdfs_sentinel(sp, shape, size):
         got = m.reverse_dfs(tl, finals)
     finally:
         sys.setrecursionlimit(old)
-    sp.prove(got == _oracle(n, tl, finals), "reverse_dfs wrong on %s(%d)" % (shape, size))
+    exp = _oracle(n, tl, finals)
+    sp.prove(got == exp, "reverse_dfs wrong on %s(%d): got %s expected %s" % (shape, size, str(got)[:120], str(exp)[:120]))
     sp.prove(time.time() - t0 < 60, "reverse_dfs took %.0fs on %s(%d)" % (time.time() - t0, shape, size))
+    rt = m.reverse_transition_list(tl)
+    sp.prove(sorted(rt.keys()) == list(range(n)), "reversed table keys")
+    cnt = {}
+    for u in range(n):
+        for _, v in tl[u]:
+            cnt[(u, v)] = cnt.get((u, v), 0) + 1
+    sp.prove(all(rt[v].count(u) == c for (u, v), c in cnt.items()) and sum(len(x) for x in rt.values()) == sum(cnt.values()),
+             "reversed table does not list u under v once per transition")
